@@ -179,6 +179,11 @@ pub struct Scenario {
     /// nodes whose game saves its states without a checksum
     #[serde(default)]
     pub no_checksum: Vec<usize>,
+    /// every player session polls once more at the end of each round (an application that polls
+    /// more often than it ticks); with latency 0 a request and its reply then fall into one
+    /// instant of virtual time
+    #[serde(default)]
+    pub extra_polls: bool,
 }
 
 impl Scenario {
@@ -211,6 +216,7 @@ impl Scenario {
             link_lat: Vec::new(),
             scripted_stalls: Vec::new(),
             no_checksum: Vec::new(),
+            extra_polls: false,
         }
     }
 
